@@ -128,11 +128,14 @@ ByzBcastMsgs(b) ==
            \cup {Answer("ok", j, P) : j \in Nodes \ {b}, P \in Polys}
            \cup {Answer("badscalar", j, NONE) : j \in Nodes \ {b}}
            \cup {Answer("bad", -1, NONE)}
-      ELSE {})
+      ELSE \* unsolicited dealer-type messages from a participant that is not a dealer (ignored by the code: origin # dealer)
+           {Vec("ok", "P1"), Answer("ok", CHOOSE j \in Nodes : j # b, "P1"), Answer("bad", -1, NONE)})
   \cup {Complaint("ok", d) : d \in Dealers \ {b}}
+  \cup (IF Joint THEN {} ELSE {Complaint("ok", CHOOSE j \in Nodes : j \notin Dealers /\ j # b)})   \* a complaint against a non-dealer
   \cup {Complaint("bad", -1), Junk("empty")}
 
-ByzPrivMsgs(b) == IF b \in Dealers THEN {Share("ok", P) : P \in Polys} \cup {Share("bad", NONE)} ELSE {}
+ByzPrivMsgs(b) == IF b \in Dealers THEN {Share("ok", P) : P \in Polys} \cup {Share("bad", NONE)}
+                  ELSE {Share("ok", "P1")}      \* a share from a participant that is not a dealer (ignored)
 
 SeqsUpTo(S, k) == UNION {[1..n -> S] : n \in 0..k}
 RandSeq(S, k)  == IF S = {} \/ k <= 0 THEN <<>>
